@@ -80,7 +80,8 @@ theorem hcm_batch_eq_single_LF (law : Law) (hl : SignPreserving law) (L : List I
 
 /-! ### non-vacuity -/
 
-/-- the two stub laws of the correspondence check are sign preserving -/
+/-- the linear stub law of the correspondence check is sign preserving (the saturating one is as well, being odd and monotone; only
+the linear one is proved here) -/
 theorem signPreserving_lawLinear : SignPreserving lawLinear := by
   intro d
   simp only [lawLinear]
